@@ -460,6 +460,32 @@ def collect_universe(chk, limit=None, budget2=None):
                    for c in k[1:])
     special = [k for k in comp if has_special(k)]
     comp = [k for k in comp if not has_special(k)]
+
+    def names(k):
+        if k[0] in ("MultiMarker", "MarkerUnion"):
+            return set().union(*[names(c) for c in k[1:] if isinstance(c, tuple)]) if len(k) > 1 else set()
+        return {k[1]} if len(k) > 1 and isinstance(k[1], str) and k[0] not in ("TEXT",) else set()
+
+    def natoms(k):
+        return sum(natoms(c) for c in k[1:] if isinstance(c, tuple)) if k[0] in ("MultiMarker", "MarkerUnion") else 1
+
+    def sharing(k):
+        """a nested compound child that mentions several variables, one of which also occurs in a sibling: the shape on which
+        variable elimination must look below the first level (taken exhaustively, smallest first — not left to the sample)"""
+        kids = [c for c in k[1:] if isinstance(c, tuple)]
+        for i, c in enumerate(kids):
+            if c[0] in ("MultiMarker", "MarkerUnion") and len(names(c)) > 1:
+                if any(i != j and names(d) & names(c) for j, d in enumerate(kids)):
+                    return True
+        return False
+    shared = sorted((k for k in comp if sharing(k)), key=lambda k: (natoms(k), repr(k)))
+    if limit is not None:
+        shared = shared[: max(200, limit // 3)]
+    sset = set(shared)
+    comp = [k for k in comp if k not in sset]
+    special = special + shared
+    if limit is not None:
+        limit = max(0, limit - len(shared))
     deep = [k for k in comp if nested(k)]
     flat = [k for k in comp if not nested(k)]
     rnd = random.Random(chk.seed)
